@@ -90,7 +90,7 @@ func runC07(c *fw.Ctx) {
 	xorSweep := mode == 7
 	if mode == 6 || mode == 5 {
 		// the handler under round shapes no shipped protocol has (e.g. point-to-point-only rounds after round 2)
-		sc = scen.DrawToy(c)
+		sc = scen.DrawToy(c, 2)
 	} else if xorSweep {
 		// the deterministic 2-round protocol with 3 parties: 6 messages, 720 delivery orders, sampled uniformly
 		ids := scen.IDPool[:3]
